@@ -227,3 +227,73 @@ func joinS(xs []string) string {
 	}
 	return s
 }
+
+// allFieldHeap resolves the location all(Type.field) / all(pkg.Type.field) to its heap variable.
+func (g *Gen) allFieldHeap(f *EField) (string, bool) {
+	var tname string
+	switch x := f.X.(type) {
+	case *EIdent:
+		tname = x.Name
+	case *EField:
+		if id, ok := x.X.(*EIdent); ok {
+			tname = id.Name + "." + x.Name
+		}
+	}
+	if tname == "" {
+		return "", false
+	}
+	var t types.Type
+	func() {
+		defer func() { recover() }()
+		t, _ = g.specType(tname)
+	}()
+	if t == nil {
+		return "", false
+	}
+	var pkg *types.Package
+	if n, ok := derefNamed(t); ok {
+		pkg = n.Obj().Pkg()
+	}
+	obj, path, _ := types.LookupFieldOrMethod(t, true, pkg, f.Name)
+	if obj == nil || len(path) != 1 {
+		return "", false
+	}
+	if _, isStruct := t.Underlying().(*types.Struct).Field(path[0]).Type().Underlying().(*types.Struct); isStruct {
+		return "", false
+	}
+	return g.fieldHeap(t, path[0]), true
+}
+
+// staticType resolves the Go type of a contract expression of the shape param(.field)* in the
+// contract of function `key`, without evaluating it (used to name the heap variables a callee's
+// modifies clause can touch).
+func (g *Gen) staticType(key string, e Expr) types.Type {
+	switch x := e.(type) {
+	case *EIdent:
+		f := g.E.funcs[key]
+		if f != nil {
+			for _, p := range f.Params {
+				if p.Name() == x.Name {
+					return p.Type()
+				}
+			}
+			return nil
+		}
+		// external function: look the signature up through any call site is not possible here
+		return nil
+	case *EField:
+		bt := g.staticType(key, x.X)
+		if bt == nil {
+			return nil
+		}
+		var pkg *types.Package
+		if n, ok := derefNamed(bt); ok {
+			pkg = n.Obj().Pkg()
+		}
+		obj, _, _ := types.LookupFieldOrMethod(bt, true, pkg, x.Name)
+		if v, ok := obj.(*types.Var); ok {
+			return v.Type()
+		}
+	}
+	return nil
+}
